@@ -39,6 +39,7 @@ PAYLOADS = [
     "<key>", "<body>", "<newline>", "<indent>", "<condition_kwargs>", "<salt>", "A<key>B", "{key}", "{body}", "$key", "%(key)s", "{{key}}",
     "__KEY__", "@@BODY@@", "${salt}", "<%= key %>", "\\g<1>", "\\1", "$1", "&", "\\0",
     "name='f'", "name='uid'", "f", "uid", "1", "(1, 2)", "Identifier(name='f')", "0", "z",
+    "$PYAB_PLANTED", "${PYAB_PLANTED}", "%PYAB_PLANTED%", "a $PYAB_PLANTED b", "$HOME", "${HOME}", "$PATH", "~", "~root", "~/x", "$$", "$(id)", "`id`",
     "", " ", "it's", 'say "hi"', "plain", "\\n", "\\t'", "${x}", "`x`", "'+'", "\\'", 'a" + __pyab_sentinel__() + "b',
     # strings that look like data of some other type (versions, dates, addresses, numbers in other notations, patterns, formats)
     "2.10.0", "2.5", "10.0", "1.2.3.4", "v1.2", "2024-01-31", "12:30", "10.0.0.1", "a@b.co", "/usr/bin", "1,000", "50%", "$5", "#fff", "<b>", "&amp;",
@@ -57,6 +58,11 @@ def _sentinel(*a, **k):
 def _plant():
     setattr(builtins, SENTINEL, _sentinel)
     _calls["n"] = 0
+    # an environment variable with a hostile value, referenced from literals as $NAME / ${NAME} / %NAME%: the text of an
+    # experiment is not a template
+    import os
+
+    os.environ["PYAB_PLANTED"] = 'x" or uid != "' + "'+str(" + SENTINEL + "())+'"
 
 
 def _ok_str(s):
